@@ -86,6 +86,7 @@ type Specs struct {
 	unorderedOK map[string]string
 	structInv map[string][]Clause
 	pureMethod map[string]bool
+	siteTags   map[string][]string
 	readerExt  []*regexp.Regexp
 }
 
@@ -128,7 +129,7 @@ func (s *Specs) ifaceContract(it types.Type, method string) *Contract {
 func loadSpecs(w *World, trustedDir string) *Specs {
 	s := &Specs{contracts: map[string]*Contract{}, ifaces: map[string]*Contract{}, specFns: map[string]*SpecFn{}, pure: map[string]bool{},
 		mutators: map[string]bool{}, noInline: map[string]bool{}, nonnilField: map[string]bool{}, nonnilElem: map[string]bool{},
-		nonnilMapVal: map[string]bool{}, nonnilResult: map[string]bool{}, nonnilIface: map[string]bool{}, unorderedOK: map[string]string{}, structInv: map[string][]Clause{}, pureMethod: map[string]bool{}, w: w, pkgByName: map[string]*types.Package{}, typeInv: map[string][]Clause{}}
+		nonnilMapVal: map[string]bool{}, nonnilResult: map[string]bool{}, nonnilIface: map[string]bool{}, unorderedOK: map[string]string{}, structInv: map[string][]Clause{}, pureMethod: map[string]bool{}, siteTags: map[string][]string{}, w: w, pkgByName: map[string]*types.Package{}, typeInv: map[string][]Clause{}}
 	for _, p := range w.prog.AllPackages() {
 		name := p.Pkg.Name()
 		if old, ok := s.pkgByName[name]; ok {
@@ -338,6 +339,12 @@ func (s *Specs) parseFile(path string, trusted bool) {
 			s.nonnilElem[rest] = true
 		case "mapval-nonnil":
 			s.nonnilMapVal[rest] = true
+		case "also-serves":
+			// also-serves <func> <property,...>: the NONDET obligations of this function also decide these properties
+			f := strings.Fields(rest)
+			if len(f) == 2 {
+				s.siteTags[f[0]] = strings.Split(f[1], ",")
+			}
 		case "maprange-unordered":
 			// maprange-unordered <func> <loop ordinal> <reason>: the loop's result is an unordered collection by the property's wording
 			f := strings.SplitN(rest, " ", 3)
